@@ -195,7 +195,7 @@ theorem linfun_quad [CommSemiring α] (n : Nat) (x : List α) (hx : x.length = n
           + (if b = j then (if a = i then x.getD i 0 * v * x.getD j 0 else 0) else 0) := by
       intro j
       rw [entry_addAt hM ha hb]
-      by_cases h1 : a = i <;> by_cases h2 : b = j <;> simp [h1, h2] <;> ring
+      by_cases h1 : a = i <;> by_cases h2 : b = j <;> simp [h1, h2]; ring
     simp only [this, sumRange_add]
     congr 1
     rw [sumRange_ite_eq n b hb (fun j => if a = i then x.getD i 0 * v * x.getD j 0 else 0)]
@@ -348,11 +348,11 @@ theorem sum_symm_pairs [AddCommMonoid α] (E : List (Nat × Nat))
       obtain ⟨a, b⟩ := e
       rcases Nat.lt_trichotomy a b with h | h | h
       · have h' : ¬ b < a := by omega
-        simp [List.filter_cons, h, h', ih, add_assoc]
+        simp [h, h', ih, add_assoc]
       · subst h
-        simp [List.filter_cons, ih, hdiag]
+        simp [ih, hdiag]
       · have h' : ¬ a < b := by omega
-        simp [List.filter_cons, h, h', ih, add_left_comm]
+        simp [h, h', ih, add_left_comm]
   rw [step1 E]
   congr 1
   have hperm := (hE.filter fun e => e.1 < e.2).map g
@@ -360,7 +360,7 @@ theorem sum_symm_pairs [AddCommMonoid α] (E : List (Nat × Nat))
   congr 1
   apply List.map_congr_left
   intro e _
-  simp [Function.comp_def, hsym e.2 e.1]
+  simp [hsym e.2 e.1]
 
 theorem sumSq_nonneg [Field α] [LinearOrder α] [IsStrictOrderedRing α] (x : List α) : 0 ≤ sumSq x := by
   rw [sumSq, sumRange_eq_finset]
@@ -618,15 +618,16 @@ theorem zerothMatrix_entry [CommRing α] (n : Nat) (c : α) (i j : Nat) :
   rw [(zerothMatrix_linfun (linfun_entry n i j) c).2, entry_zeros, zero_add]
   by_cases h : i = j ∧ i < n
   · obtain ⟨rfl, hi⟩ := h
-    have := sumRange_ite_eq n i hi (fun _ => c * c)
     simp only [hi, and_self, if_true]
-    rw [← this]
-    apply sumRange_congr
+    refine Eq.trans (sumRange_congr n _ (fun a => if i = a then c * c else 0) ?_)
+      (sumRange_ite_eq n i hi (fun _ => c * c))
     intro a _
-    by_cases ha : a = i <;> simp [ha, eq_comm]
+    by_cases ha : a = i
+    · subst ha; simp
+    · have ha' : ¬ i = a := fun h => ha h.symm
+      simp [ha, ha']
   · rw [if_neg h]
-    rw [← sumRange_zero n]
-    apply sumRange_congr
+    refine Eq.trans (sumRange_congr n _ (fun _ => (0 : α)) ?_) (sumRange_zero n)
     intro a ha
     have : ¬ (a = i ∧ a = j) := by
       rintro ⟨rfl, rfl⟩
@@ -660,15 +661,16 @@ theorem brightnessZerothMatrix_entry [CommRing α] (n : Nat) (w : List α) (hn :
   rw [(brightnessZerothMatrix_linfun (linfun_entry n i j) w hn).2, entry_zeros, zero_add]
   by_cases h : i = j ∧ i < n
   · obtain ⟨rfl, hi⟩ := h
-    have := sumRange_ite_eq n i hi (fun a => w.getD a 0 * w.getD a 0)
     simp only [hi, and_self, if_true]
-    rw [← this]
-    apply sumRange_congr
+    refine Eq.trans (sumRange_congr n _ (fun a => if i = a then w.getD a 0 * w.getD a 0 else 0) ?_)
+      (sumRange_ite_eq n i hi (fun a => w.getD a 0 * w.getD a 0))
     intro a _
-    by_cases ha : a = i <;> simp [ha, eq_comm]
+    by_cases ha : a = i
+    · subst ha; simp
+    · have ha' : ¬ i = a := fun h => ha h.symm
+      simp [ha, ha']
   · rw [if_neg h]
-    rw [← sumRange_zero n]
-    apply sumRange_congr
+    refine Eq.trans (sumRange_congr n _ (fun _ => (0 : α)) ?_) (sumRange_zero n)
     intro a ha
     have : ¬ (a = i ∧ a = j) := by
       rintro ⟨rfl, rfl⟩
